@@ -99,6 +99,14 @@ class MotionOracle:
     def on_step(self, unit, e, o, before, after):
         pos0, pos1 = before['current_position'], after['current_position']
         self.checked += 1
+        if o is not None and o[0] == 'H':
+            self.fail('state_outside_protocol', 'after %r the unit holds a value outside the protocol\'s state '
+                      'space: %s' % (list(e), o[1]))
+            return
+        if e[0] == 'tick' and o is not None and o[0] == 'E':
+            # the positioning step itself raised: the positioning thread of the line is dead, motion never ends
+            self.fail('positioning_raised', 'time step %d: %s' % (e[1], o[1]))
+            return
         # range (C12_range)
         if not (UC.MINP <= pos1 <= UC.MAXP):
             self.fail('range', 'position %d outside the mechanical range' % pos1)
@@ -218,7 +226,11 @@ def check_events(impl, idx, clock0, events):
     for e in events:
         e = (e[0],) + tuple(e[1:])
         o = UC.apply_event(unit, e)
-        after = unit.snapshot()
+        try:
+            after = unit.snapshot()
+        except UC.HarnessError as ex:
+            orc.on_step(unit, e, ('H', str(ex)), before, before)
+            break
         orc.on_step(unit, e, o, before, after)
         before = after
         if o is not None and o[0] in ('B', 'E'):
@@ -291,10 +303,14 @@ class LineOracle:
         n = len(before)
         if self.per_unit is None:
             self.per_unit = [MotionOracle() for _ in range(n)]
+        if o is not None and o[0] == 'H':
+            self.per_unit[0].on_step(None, e, o, before[0], after[0])
+            self.checked += 1
+            return
         for j in range(n):
             orc = self.per_unit[j]
             if e[0] == 'tick':
-                orc.on_step(None, e, None, before[j], after[j])
+                orc.on_step(None, e, o if (o is not None and o[0] == 'E') else None, before[j], after[j])
             elif e[0] == 'bcast':
                 orc.on_step(None, ('cmd', e[1], e[2], e[3]), ('S',) if o == ('S',) else o, before[j], after[j])
             elif e[1] == j:
